@@ -3,11 +3,11 @@
    Coq's positive / N / nat datatypes; no Extract Constant. *)
 From Coq Require Import Extraction ExtrOcamlBasic.
 From Grex Require Import Engine.Syntax Engine.Parse Engine.Exec Engine.ExecCi Engine.Prio Engine.PrioCi.
-From Grex Require Import Base.Str Model.Config Model.Cluster Model.Dfa Model.Expr Model.Print Model.Pipeline.
+From Grex Require Import Base.Str Model.Config Model.Cluster Model.Dfa Model.Expr Model.Print Model.Pipeline Model.SelfCheck.
 Extraction Language OCaml.
 Extraction "model.ml"
   mkCfg default_cfg mkO normalise clusters_g clusters_k clusters_r grapheme_clusters
   trie_of no_merge minimize dfa_from expr_from final_expr new_alternation regexp_str build
   e_str lines strip_sgr mem_ranges is_digit is_word is_space g_eqb expr_eqb
   escape_cp hex_of_N dec_of_N cluster_of convert_classes convert_repetitions
-  partition_of dfs_order union2 concatenate parse sc_admissible matches_whole_cs find_leftmost_cs matches_whole_engine find_leftmost_engine find_first_engine rep_bodies_ok.
+  partition_of dfs_order union2 concatenate parse sc_admissible matches_whole_cs find_leftmost_cs matches_whole_engine find_leftmost_engine find_first_engine rep_bodies_ok find_iter_count_engine sc_ref sc_decide cand_str cand1_str dfa_from.
